@@ -134,14 +134,24 @@ func PlaceFile(afs fs.FS, fmeta fs.Metadata, body io.Reader, skipChown bool) err
 		if err := afs.Mkfifo(fmeta.Name, fmeta.Perms); err != nil {
 			return err
 		}
+		// mknod masks the mode with the umask or the parent's default ACL: set it explicitly, as for files and dirs.
+		if err := afs.Chmod(fmeta.Name, fmeta.Perms); err != nil {
+			return err
+		}
 	case fs.Type_Socket:
 		return fmt.Errorf("placefile: %q: sockets are not supported", fmeta.Name) // REVIEW is it?  we certainly can't make a *live* socket, but we could make the dead socket file exist.
 	case fs.Type_Device:
 		if err := afs.MkdevBlock(fmeta.Name, fmeta.Devmajor, fmeta.Devminor, fmeta.Perms); err != nil {
 			return err
 		}
+		if err := afs.Chmod(fmeta.Name, fmeta.Perms); err != nil {
+			return err
+		}
 	case fs.Type_CharDevice:
 		if err := afs.MkdevChar(fmeta.Name, fmeta.Devmajor, fmeta.Devminor, fmeta.Perms); err != nil {
+			return err
+		}
+		if err := afs.Chmod(fmeta.Name, fmeta.Perms); err != nil {
 			return err
 		}
 	case fs.Type_Hardlink:
